@@ -17,16 +17,17 @@ SPEC = dict(
              rebind=[("use std::collections::HashMap;", "use crate::verif_shims::arraymap::HashMap;")],
              harness="C26_cmap.rs"),
     ],
-    stubs_doc=["std HashMap (single_mappings cache) -> array model (empty in these obligations)"],
+    stubs_doc=["std HashMap (single_mappings cache) -> array model (capacity 2; empty in the bfrange/codespace obligations, two symbolic entries in the bfchar obligations)"],
     outside_claim=[
         "the PostScript tokenizer/parser (tokenize_cmap, CMap::parse) and ToUnicodeCMapBuilder::build -> parse round trip (string formatting and parsing both ways)",
-        "bfchar entries and the array form of bfrange (stored in the HashMap cache by the parser)",
-        "codes of 4 bytes; more than one range; to_unicode's UTF-16 decoding",
+        "how the parser fills the cache: bfchar entries and the array form of bfrange are decided only from the cache onwards (two entries placed directly in single_mappings)",
+        "codes of 4 bytes; more than one range; more than two bfchar entries; to_unicode's UTF-16 decoding",
+        "code-space membership of codes that are numerically inside [start, end] but outside the per-byte rectangle (Adobe TN 5014 reads ranges per byte, pdf.js/mupdf and this library numerically): contested, no obligation either way",
     ],
     trusted=["big-endian arithmetic reference in harness/C26_cmap.rs"],
 )
 
 MANIFEST = dict(
-    text="Bounded model checking of CMap::map / is_valid_code / CodeRange::contains / calculate_offset / increment_be (sliced from text/cmap.rs) on a CMap value built directly: for one offset-form bfrange with 1-, 2- (quick) and 3-byte (thorough) codes, EVERY start <= end, destination and looked-up code, the result is dst + (code - start) as big-endian integers with carry across bytes, codes outside the range are unmapped and codes of another length are outside the code space; calculate_offset on codes up to 9 bytes never panics and is the saturating difference; increment_be is +1 with carry and reports overflow.",
-    note="Outside: the CMap text parser and the ToUnicode builder round trip (string formatting/parsing), bfchar/array-form entries, 4-byte codes.",
+    text="Bounded model checking of CMap::map / is_valid_code / CodeRange::contains / calculate_offset / increment_be (sliced from text/cmap.rs) on a CMap value built directly: for one offset-form bfrange with 1-, 2- (quick) and 3-byte (thorough) codes, EVERY start <= end, destination and looked-up code, the result is dst + (code - start) as big-endian integers with carry across bytes, codes outside the range are unmapped and codes of another length are outside the code space; code-space gating with ARBITRARY range bounds (1- and 2-byte codes quick, 3-byte thorough): every code inside the per-byte range is accepted, every code numerically outside it or of another length is rejected; two bfchar entries next to a bfrange (1- and 2-byte codes): each key maps to its own destination, takes precedence over the range, a longer code with a key as prefix is unmapped, every other code follows the range arithmetic; calculate_offset on codes up to 9 bytes never panics and is the saturating difference; increment_be is +1 with carry and reports overflow.",
+    note="Outside: the CMap text parser and the ToUnicode builder round trip (string formatting/parsing), more than two bfchar entries / one range, 4-byte codes; codes numerically inside but per-byte outside a code-space range carry no obligation (contested reading).",
 )
